@@ -141,7 +141,7 @@ def classify_structure(name, defn):
         return "KF-CORPUS-KILL-MERGE"
     if name and "loop_with_2_breaks_one_leads_to_other" in name:
         return "KF-CORPUS-2BREAKS"
-    if name and name not in ("F", "F+", "K", "FB", "FS"):
+    if name and name not in ("F", "F+", "K", "FB", "FS", "FL"):
         return None
     if nested_break(defn):
         return "KF-NESTED-BREAK"
